@@ -80,6 +80,8 @@ package rules
 //@   option stable (*matchBlockBuilder).UsingMatchBlocks, (*matchBlockBuilder).doneFirstPositiveMatchBlock, (*matchBlockBuilder).markAllBlocksPass, (*matchBlockBuilder).markThisBlockPass
 //@   requires c08Bits(r)
 //@   ghost at call SetMaskedMark: c08Mark = (c08Mark & (0xffffffff ^ arg2)) | arg1
+//@   ghost at call SetMark: c08Mark = c08Mark | arg1
+//@   ghost at call ClearMark: c08Mark = c08Mark & (0xffffffff ^ arg1)
 //@   ensures r.UsingMatchBlocks && c08Same(r) && r.doneFirstPositiveMatchBlock == old(r.doneFirstPositiveMatchBlock)
 //@   ensures old(r.UsingMatchBlocks) ==> c08Mark == old(c08Mark)
 //@   ensures !old(r.UsingMatchBlocks) ==> c08Mark == (old(c08Mark) & (0xffffffff ^ (r.markAllBlocksPass | r.markThisBlockPass))) | markBitsToSetInitially
@@ -99,6 +101,8 @@ package rules
 //@   requires c08Bits(r)
 //@   ghost at call MarkClear: c08Fire = (c08Mark & arg1 == 0)
 //@   ghost at call ClearMark: c08Mark = c08Fire ? (c08Mark & (0xffffffff ^ arg1)) : c08Mark
+//@   ghost at call SetMark: c08Mark = c08Fire ? (c08Mark | arg1) : c08Mark
+//@   ghost at call SetMaskedMark: c08Mark = c08Fire ? ((c08Mark & (0xffffffff ^ arg2)) | arg1) : c08Mark
 //@   ensures r.doneFirstPositiveMatchBlock && c08Same(r) && r.UsingMatchBlocks == old(r.UsingMatchBlocks)
 //@   ensures !old(r.doneFirstPositiveMatchBlock) ==> c08Mark == old(c08Mark)
 //@   ensures old(r.doneFirstPositiveMatchBlock) ==> c08Mark == ((old(c08Mark) & r.markThisBlockPass == 0) ? (old(c08Mark) & (0xffffffff ^ r.markAllBlocksPass)) : old(c08Mark))
@@ -114,6 +118,8 @@ package rules
 //@   ghost at call maybeAppendInitialRule: c08Was = old(r.UsingMatchBlocks) ; c08Blk = false
 //@   ghost at call MatchNet: c08Fire = pktMatches(res)
 //@   ghost at call SetMark: c08Mark = c08Fire ? (c08Mark | arg1) : c08Mark ; c08Blk = c08Blk || c08Fire
+//@   ghost at call ClearMark: c08Mark = c08Fire ? (c08Mark & (0xffffffff ^ arg1)) : c08Mark
+//@   ghost at call SetMaskedMark: c08Mark = c08Fire ? ((c08Mark & (0xffffffff ^ arg2)) | arg1) : c08Mark
 //@   ghost at call finishPositiveBlock: c08All = (c08Was ? (c08All && c08Blk) : c08Blk)
 //@   ensures c08Same(r) && r.UsingMatchBlocks && r.doneFirstPositiveMatchBlock
 //@   ensures c08All == (old(r.UsingMatchBlocks) ? (old(c08All) && c08Blk) : c08Blk)
@@ -132,6 +138,8 @@ package rules
 //@   ghost at call AppendMatchPorts: c08Fire = pktMatches(res)
 //@   ghost at call MatchIPPortIPSet: c08Fire = pktMatches(res)
 //@   ghost at call SetMark: c08Mark = c08Fire ? (c08Mark | arg1) : c08Mark ; c08Blk = c08Blk || c08Fire
+//@   ghost at call ClearMark: c08Mark = c08Fire ? (c08Mark & (0xffffffff ^ arg1)) : c08Mark
+//@   ghost at call SetMaskedMark: c08Mark = c08Fire ? ((c08Mark & (0xffffffff ^ arg2)) | arg1) : c08Mark
 //@   ghost at call finishPositiveBlock: c08All = (c08Was ? (c08All && c08Blk) : c08Blk)
 //@   ensures c08Same(r) && r.UsingMatchBlocks && r.doneFirstPositiveMatchBlock
 //@   ensures c08All == (old(r.UsingMatchBlocks) ? (old(c08All) && c08Blk) : c08Blk)
@@ -154,6 +162,8 @@ package rules
 //@   ghost at call maybeAppendInitialRule: c08Was = old(r.UsingMatchBlocks) ; c08Blk = false ; c08All = (old(r.UsingMatchBlocks) ? c08All : true)
 //@   ghost at call MatchNet: c08Fire = pktMatches(res)
 //@   ghost at call ClearMark: c08Mark = c08Fire ? (c08Mark & (0xffffffff ^ arg1)) : c08Mark ; c08Blk = c08Blk || c08Fire ; c08All = c08All && !c08Fire
+//@   ghost at call SetMark: c08Mark = c08Fire ? (c08Mark | arg1) : c08Mark ; c08Blk = c08Blk || c08Fire
+//@   ghost at call SetMaskedMark: c08Mark = c08Fire ? ((c08Mark & (0xffffffff ^ arg2)) | arg1) : c08Mark
 //@   ensures c08Same(r) && r.UsingMatchBlocks && r.doneFirstPositiveMatchBlock == old(r.doneFirstPositiveMatchBlock)
 //@   ensures c08All == ((old(r.UsingMatchBlocks) ? old(c08All) : true) && !c08Blk)
 //@   ensures (c08Mark & r.markAllBlocksPass != 0) == c08All
